@@ -1145,18 +1145,18 @@ class RlWriter:
                 img.margin[1] + img.margin[3] + img.padding[1] + img.padding[3]
             )
             height = width / aspect_ratio
-            if width > img.imgWidth:
+            if width > img.img_width:
                 scaled = img
             else:
                 scaled = Figure(
                     img.img_path,
                     img.caption_txt,
-                    img.cs,
+                    img.caption_style,
                     img_width=width,
                     img_height=height,
                     margin=img.margin,
                     padding=img.padding,
-                    border_color=img.borderColor,
+                    border_color=img.border_color,
                     url=img.url,
                 )
             scaled_images.append(scaled)
@@ -1174,11 +1174,11 @@ class RlWriter:
                 data.append([figures[-1], ""])
             table = Table(data)
             final_nodes.append(table)
-            figures = []
+            final_nodes.append(node)
+            should_clear_figures = True
         else:
             if figures:
                 final_nodes.append(figures[0])
-                figures = []
                 should_clear_figures = True
             final_nodes.append(node)
         return should_clear_figures
